@@ -113,7 +113,7 @@ def short_tb(limit=5):
 
 
 def run_history(case, ctx, on_step=None, compare_fresh=True, check_totals=True, check_undo=True,
-                kind_prefix=""):
+                kind_prefix="", on_failed_edit=None):
     """Execute ``case`` = {spec, id_seed, history}. Reports violations through ctx. Returns a summary dict."""
     spec = case["spec"]
     hist = case["history"]
@@ -161,8 +161,15 @@ def run_history(case, ctx, on_step=None, compare_fresh=True, check_totals=True, 
                 fresh_ok = False
             if not fresh_ok:
                 summary["labels"].append("edit_rejected_target_invalid")
-                summary["status"] = "ended_invalid_target"
-                return summary
+                if on_failed_edit is None:
+                    summary["status"] = "ended_invalid_target"
+                    return summary
+                # C15: the failed edit must be recoverable; the hook re-assigns the previous value and checks
+                if on_failed_edit(i, e, cur, live, ex, case_i) is False:
+                    summary["status"] = "violation"
+                    return summary
+                summary["failed_edits"] = summary.get("failed_edits", 0) + 1
+                continue
             try:
                 unchanged = not snap.compare(snap.snapshot(S.reachable(live)), snap_before)
             except Exception:
